@@ -55,6 +55,11 @@ type c03task struct {
 	inflight bool
 	handed   bool // was handed to the executor at least once
 	lostRun  int  // consecutive LOST outcomes delivered
+	// mayRun is the longest run of consecutive losses the evaluator may have counted: a task that
+	// completes and is lost spontaneously before the evaluator looked at it was, as far as the
+	// evaluator can tell, lost again (okBefore: mayRun before that completion; -1: not pending)
+	mayRun   int
+	okBefore int
 	timeline []c03ev
 }
 
@@ -64,21 +69,23 @@ type c03ev struct {
 }
 
 type c03exec struct {
-	mu      sync.Mutex
-	clock   int64
-	tasks   map[*exec.Task]*c03task
-	parked  map[*c03task]bool
-	events  int64
-	viol    []string
-	viosig  []string
-	spont   bool // the history contains a spontaneous loss of a completed task
-	nevals  int  // number of concurrent evaluators
-	handoff int
-	resub   int
-	lastRet map[*c03task]int64
-	start   int64
-	elog    []string // logical-time event log (kept for witnesses)
-	active  int64    // Run calls in progress
+	mu     sync.Mutex
+	clock  int64
+	tasks  map[*exec.Task]*c03task
+	parked map[*c03task]bool
+	events int64
+	viol   []string
+	viosig []string
+	spont  bool // the history contains a spontaneous loss of a completed task
+	nevals int  // number of concurrent evaluators
+	// mayGiveUp: some task may have been seen lost five times in a row by the evaluator (see mayRun)
+	mayGiveUp bool
+	handoff   int
+	resub     int
+	lastRet   map[*c03task]int64
+	start     int64
+	elog      []string // logical-time event log (kept for witnesses)
+	active    int64    // Run calls in progress
 }
 
 func (x *c03exec) logf(format string, args ...interface{}) {
@@ -185,6 +192,16 @@ func (x *c03exec) Run(t *exec.Task) {
 	}
 	ct.inflight = true
 	ct.handed = true
+	ct.okBefore = -1
+	// handing off a dependent proves that the evaluator has seen the completion of each dependency
+	// (and has reset its count of consecutive losses)
+	for _, d := range t.Deps {
+		for i := 0; i < d.NumTask(); i++ {
+			if dt := x.tasks[d.Task(i)]; dt != nil {
+				dt.okBefore = -1
+			}
+		}
+	}
 	x.parked[ct] = true
 	x.mu.Unlock()
 	// the executor contract: WAITING -> RUNNING -> final
@@ -197,9 +214,19 @@ func (x *c03exec) Run(t *exec.Task) {
 	switch outcome {
 	case "ok":
 		ct.lostRun = 0
+		x.mu.Lock()
+		ct.okBefore, ct.mayRun = ct.mayRun, 0
+		x.mu.Unlock()
 		x.setState(ct, exec.TaskOk, nil)
 	case "lost":
 		ct.lostRun++
+		x.mu.Lock()
+		ct.mayRun++
+		ct.okBefore = -1
+		if ct.mayRun >= 5 {
+			x.mayGiveUp = true
+		}
+		x.mu.Unlock()
 		x.setState(ct, exec.TaskLost, nil)
 	case "err":
 		x.setState(ct, exec.TaskErr, errC03)
@@ -218,7 +245,7 @@ func buildC03(c c03case) (*c03exec, [][]*c03task) {
 		for sh := 0; sh < st.Shards; sh++ {
 			t := &exec.Task{Name: exec.TaskName{Op: fmt.Sprintf("s%d", si), Shard: sh, NumShard: st.Shards}}
 			raw[sh] = t
-			ts[sh] = &c03task{t: t, stage: si, shard: sh, name: fmt.Sprintf("s%d:%d", si, sh), parked: make(chan string, 1)}
+			ts[sh] = &c03task{t: t, stage: si, shard: sh, name: fmt.Sprintf("s%d:%d", si, sh), parked: make(chan string, 1), okBefore: -1}
 			x.tasks[t] = ts[sh]
 		}
 		stages[si] = ts
@@ -398,6 +425,15 @@ func runC03case(t *vf.T, c c03case) {
 				x.spont = true
 				x.mu.Unlock()
 				ct := done[st.Pick%len(done)]
+				x.mu.Lock()
+				if ct.okBefore >= 0 {
+					ct.mayRun = ct.okBefore + 1
+					ct.okBefore = -1
+					if ct.mayRun >= 5 {
+						x.mayGiveUp = true
+					}
+				}
+				x.mu.Unlock()
 				x.setState(ct, exec.TaskLost, nil)
 				nonOK = true
 				atomic.AddInt64(&x.events, 1)
@@ -478,7 +514,12 @@ func runC03case(t *vf.T, c c03case) {
 				return
 			}
 		} else {
-			if !fatal && !giveUp && !errInit {
+			x.mu.Lock()
+			may := x.mayGiveUp
+			x.mu.Unlock()
+			if !fatal && !giveUp && !errInit && may && strings.Contains(r.err.Error(), "consecutive") {
+				t.Count("give_ups_after_a_completion_lost_before_it_was_seen", 1)
+			} else if !fatal && !giveUp && !errInit {
 				t.Violate("spurious-error", fmt.Sprintf("Eval returned %v although no task failed fatally and none was lost five times in a row | %s", r.err, c03describe(c)))
 				return
 			}
